@@ -325,7 +325,7 @@ def run(f, fixture, rep, cfg, tier):
 
     # ---- K ------------------------------------------------------------------------------------------
     cb = f.one("FileOptionsBuilder::caps")
-    errs = {v for (_b, v) in err_assign_blocks(cb)}
+    errs = {v for (_b, v) in err_assign_blocks(cb)} | constructed_errors(f, cb)
     calls = [c.decl for c in cb.calls()]
     rep.check(errs == {"InvalidCapabilities"} and any(x.endswith("FromStr::from_str") or "FileCaps" in x for x in calls), "K", "caps|error-mapping",
               "caps() validates through FileCaps and maps failure to Err(InvalidCapabilities)", "caps() error exits are %s, calls %s" % (sorted(map(str, errs)), calls[:5]), cb.span)
